@@ -443,8 +443,9 @@ impl<'a> CompilerState<'a> {
             .map_primary(|primary| -> Result<Expr, Error> {
                 match primary.as_rule() {
                     Rule::int => Ok(Expr::Integer(parse_int(
+                        self,
                         primary.into_inner().next().unwrap(),
-                    ))),
+                    )?)),
                     Rule::expr => {
                         let res = self.parse_expr_ex(primary.into_inner())?;
                         let mut lit_strs = literal_strings.lock().unwrap();
@@ -604,8 +605,9 @@ impl<'a> CompilerState<'a> {
             .map_primary(|primary| -> Result<Expr, Error> {
                 match primary.as_rule() {
                     Rule::int => Ok(Expr::Integer(parse_int(
+                        self,
                         primary.into_inner().next().unwrap(),
-                    ))),
+                    )?)),
                     Rule::expr => {
                         let res = self.parse_expr_ex(primary.into_inner())?;
                         let mut lit_strs = literal_strings.lock().unwrap();
@@ -834,7 +836,7 @@ impl<'a> CompilerState<'a> {
                                 case_set = (Vec::<i32>::new(), Vec::<StatementLoc<'a>>::new());
                                 last_was_a_statement = false;
                             }
-                            case_set.0.push(parse_int(i.into_inner().next().unwrap()));
+                            case_set.0.push(parse_int(self, i.into_inner().next().unwrap())?);
                         }
                         Rule::statement => {
                             case_set.1.push(self.compile_statement(i)?);
@@ -932,13 +934,14 @@ impl<'a> CompilerState<'a> {
             }
             Rule::csleep_statement => {
                 let s = parse_int(
+                    self,
                     pair.into_inner()
                         .next()
                         .unwrap()
                         .into_inner()
                         .next()
                         .unwrap(),
-                );
+                )?;
                 Ok(StatementLoc {
                     pos,
                     label: None,
@@ -1016,7 +1019,7 @@ impl<'a> CompilerState<'a> {
         self.calculator
             .map_primary(|primary| -> Result<i32, Error> {
                 match primary.as_rule() {
-                    Rule::int => Ok(parse_int(primary.into_inner().next().unwrap())),
+                    Rule::int => parse_int(self, primary.into_inner().next().unwrap()),
                     Rule::calc_expr => Ok(self.parse_calc(primary.into_inner())?),
                     Rule::calc_sizeof => Ok(self.parse_sizeof(primary.into_inner())?),
                     rule => unreachable!("parse_calc expected atom, found {:?}", rule),
@@ -1372,13 +1375,14 @@ impl<'a> CompilerState<'a> {
                                                     Rule::ptr_offset => {
                                                         let sign = if x.as_str().starts_with("-") { -1 } else { 1 };
                                                         let offset = parse_int(
+                                                            self,
                                                             x.into_inner()
                                                                 .next()
                                                                 .unwrap()
                                                                 .into_inner()
                                                                 .next()
                                                                 .unwrap(),
-                                                        );
+                                                        )?;
                                                         match pxx.next() {
                                                         Some(x) => match x.as_rule() {
                                                             Rule::ptr_low => {
@@ -1480,7 +1484,7 @@ impl<'a> CompilerState<'a> {
                                                                 },
                                                                 Rule::ptr_offset => {
                                                                     let sign = if x.as_str().starts_with("-") { -1 } else { 1 };
-                                                                    let offset = parse_int(x.into_inner().next().unwrap().into_inner().next().unwrap());
+                                                                    let offset = parse_int(self, x.into_inner().next().unwrap().into_inner().next().unwrap())?;
                                                                     match pxxx.next() {
                                                                         Some(x) => match x.as_rule() {
                                                                             Rule::ptr_low => {
@@ -1546,7 +1550,7 @@ impl<'a> CompilerState<'a> {
                                                             Some(x) => match x.as_rule() {
                                                                 Rule::ptr_offset => {
                                                                     let sign = if x.as_str().starts_with("-") { -1 } else { 1 };
-                                                                    sign * parse_int(x.into_inner().next().unwrap().into_inner().next().unwrap())
+                                                                    sign * parse_int(self, x.into_inner().next().unwrap().into_inner().next().unwrap())?
                                                                 },
                                                                 _ => return Err(self.syntax_error(&format!("Incorrect suffix to reference {}", s), start))
                                                             },
@@ -2270,19 +2274,21 @@ impl<'a> CompilerState<'a> {
     }
 }
 
-fn parse_int(p: Pair<Rule>) -> i32 {
-    match p.as_rule() {
-        Rule::decimal => p.as_str().parse::<i32>().unwrap(),
-        Rule::hexadecimal => i32::from_str_radix(&p.as_str()[2..], 16).unwrap(),
-        Rule::octal => i32::from_str_radix(p.as_str(), 8).unwrap(),
+fn parse_int(state: &CompilerState, p: Pair<Rule>) -> Result<i32, Error> {
+    let start = p.as_span().start();
+    let value = match p.as_rule() {
+        Rule::decimal => p.as_str().parse::<i32>(),
+        Rule::hexadecimal => i32::from_str_radix(&p.as_str()[2..], 16),
+        Rule::octal => i32::from_str_radix(p.as_str(), 8),
         Rule::quoted_character => {
             let s = compile_quoted_string_ex(p.into_inner().next().unwrap().as_str());
-            s.chars().next().unwrap() as i32
+            return Ok(s.chars().next().unwrap() as i32);
         }
         _ => {
             unreachable!()
         }
-    }
+    };
+    value.map_err(|_| state.syntax_error("Invalid integer literal", start))
 }
 
 fn compile_quoted_string_ex(s: &str) -> String {
